@@ -28,6 +28,7 @@ def obligations(tier, seed):
     add("c19_ctor_reject_len", expect="panic", desc="data length != product rejected by from_vec/from_slice")
     for h in ["c19_eq_d1", "c19_eq_d2", "c19_eq_d3"]:
         add(h, covers=2, role="eq", desc="== iff shape and elements agree", bounds="<=5/6/8 elements")
+    add("c19_clone_from", covers=1, desc="clone_from across shapes: shape and elements of the source", bounds="rank 2, <=6 elements")
     add("c19_twin_false", expect="fail", desc="deliberately false twin (vacuity guard)")
     if tier == "thorough":
         add("c19_index_d3_e5", covers=2, desc="rank 3 extents<=5", bounds="extents<=5", timeout=1800)
